@@ -22,13 +22,37 @@ class Check:
         self.not_decided = []
         self.trusted = []
         self.extra = {}
+        self._only = None        # while set: only these rule ids are recorded (see restrict)
+        self._muted = {}
+
+    # -- including another property's rules
+    def restrict(self, only):
+        """Context manager: while active, rules whose id is not in `only` are evaluated but not recorded (used when a property includes
+        selected necessary-condition rules of another property's module)."""
+        ck = self
+
+        class _R:
+            def __enter__(self_):
+                self_.prev = ck._only
+                ck._only = set(only) if ck._only is None else (ck._only & set(only))
+
+            def __exit__(self_, *a):
+                ck._only = self_.prev
+                return False
+        return _R()
 
     # -- declaring
     def rule(self, rid, text, floor=1):
+        if self._only is not None and rid not in self._only:
+            self._muted[rid] = {"text": text, "obligations": 0, "discharged": 0, "samples": [], "floor": 0}
+            return rid
+        self._muted.pop(rid, None)
         self.rules.setdefault(rid, {"text": text, "obligations": 0, "discharged": 0, "samples": [], "floor": floor})
         return rid
 
     def ok(self, rid, key, sample=None):
+        if rid in self._muted:
+            return
         r = self.rules[rid]
         r["obligations"] += 1
         r["discharged"] += 1
@@ -37,6 +61,8 @@ class Check:
 
     def fail(self, rid, key, what, where=None, detail=None):
         """A violated obligation. key must not contain line numbers."""
+        if rid in self._muted:
+            return
         r = self.rules[rid]
         r["obligations"] += 1
         self.violations.append({"rule": rid, "key": "%s:%s" % (rid, key), "what": what, "where": where, "detail": detail})
